@@ -283,26 +283,42 @@ theorem Cli.handshake_tidy {c : Cli} (h : c.Tidy) : (c.handshake).1.Tidy := by
   · exact h
   · exact Cli.hsFault_tidy (c := { c with hsq := _ }) _ h
 
+theorem Cli.connect_tidy {c : Cli} (rc : Nat) (h : c.Tidy) : (c.connect rc).1.Tidy := by
+  unfold Cli.connect
+  split
+  · exact Cli.accept_tidy rc h
+  · have h1 : (if c.accepted then c else c.accept rc).Tidy := by
+      split
+      · exact h
+      · exact Cli.accept_tidy rc h
+    generalize (if c.accepted then c else c.accept rc) = c1 at h1
+    simp only
+    split
+    · exact Cli.handshake_tidy h1
+    · exact h1
+
+theorem Cli.retry_tidy {c : Cli} (h : c.Tidy) : c.retry.Tidy := Cli.reopen_tidy h
+
 theorem Cli.serviceConnect_tidy {c : Cli} (rc : Nat) (h : c.Tidy) : (c.serviceConnect rc).1.Tidy := by
   unfold Cli.serviceConnect
   split
   · exact h
-  · split
-    · exact Cli.accept_tidy rc h
-    · have h1 : (if c.accepted then c else c.accept rc).Tidy := by
-        split
-        · exact h
-        · exact Cli.accept_tidy rc h
-      generalize (if c.accepted then c else c.accept rc) = c1 at h1
+  · have h1 := Cli.connect_tidy rc h
+    generalize c.connect rc = r at h1
+    obtain ⟨c1, e⟩ := r
+    cases e with
+    | some e => exact h1
+    | none =>
       simp only
       split
-      · exact Cli.handshake_tidy h1
+      · exact Cli.retry_tidy h1
       · exact h1
 
 theorem Cli.step_tidy {c : Cli} (op : COp) (h : c.Tidy) : (c.step op).1.Tidy := by
   cases op with
   | reopen => exact Cli.reopen_tidy h
   | close => exact (Cli.close_tidy h).1
+  | tick d => exact h
   | connect rc hs =>
     simp only [Cli.step]
     apply Cli.serviceConnect_tidy
